@@ -463,7 +463,8 @@ func anyHashKeyCollision(vs ...px.Value) bool {
 	return false
 }
 
-// memberOrder: two types that differ only by the order of the members of a Variant / the values of an Enum somewhere
+// memberOrder: two types that differ only by the order (and, at equal number, the repetition) of the members of a
+// Variant / the values of an Enum somewhere
 func memberOrder(a, b sx.Sexp) bool {
 	return a.String() != b.String() && sortedMembers(a).String() == sortedMembers(b).String()
 }
@@ -484,12 +485,20 @@ func sortedMembers(e sx.Sexp) sx.Sexp {
 		from = 2
 	}
 	if from > 0 && len(xs) > from {
+		// Equals looks at the members as a set (plus their number): sort, drop repetitions, keep the count
 		rest := xs[from:]
 		for i := 1; i < len(rest); i++ {
 			for j := i; j > 0 && rest[j-1].String() > rest[j].String(); j-- {
 				rest[j-1], rest[j] = rest[j], rest[j-1]
 			}
 		}
+		uniq := append([]sx.Sexp{}, xs[:from]...)
+		for i, m := range rest {
+			if i == 0 || m.String() != rest[i-1].String() {
+				uniq = append(uniq, m)
+			}
+		}
+		xs = append(uniq, sx.A(fmt.Sprintf("#%d", len(rest))))
 	}
 	return sx.Sexp{List: xs, IsList: true}
 }
